@@ -4,7 +4,7 @@ from .core import *
 from .gen import *
 
 TRUSTED = [
-    'Coq 8.16.1 kernel (coqc; vm_compute used for finite sweeps; no native_compute)',
+    'Coq 8.16.1 kernel (coqc; vm_compute used for finite sweeps; no native_compute); libraries: Coq stdlib, MathComp 1.15 ssreflect/algebra (poly, ssralg, zify) for the polynomial part of C01; no axioms: every property theorem prints Closed under the global context, re-checked on every run',
     'rs2v translator (Rust/syn) for Gen/*.v: constants, supports/validate/use_high_rate/work_count, add_mod/sub_mod/fwht_2/mul, dispatch chains, statics graph',
     'hand-written executable model coq/Model/*.v tied to /repo by the correspondence check (extracted OCaml vs Rust harness on the same cases)',
     'extraction with ExtrOcamlBasic only (bool, option, unit, list, prod, sumbool, sumor -> OCaml natives; andb/orb inlined); N/positive/nat inductive; OCaml 4.13; ocaml/driver.ml glue',
